@@ -24,6 +24,8 @@ func init() {
 	ops["dh_shared"] = opDHShared
 	ops["dh_agree"] = opDHAgree
 	ops["dh_newsa"] = opDHNewSA
+	ops["dh_materials"] = opDHMaterials
+	ops["dh_spin"] = opDHSpin
 	ops["dh_newsa_failsweep"] = opDHNewSAFailSweep
 	props["C09"] = &PropDef{
 		ID: "C09", Level: "fault_enumeration",
@@ -508,6 +510,135 @@ func opDHNewSA(w *World, s *Step) (string, string) {
 	return "ok", abs
 }
 
+// opDHMaterials: the responder-side helper CalculateDiffieHellmanMaterials against a harness-side peer whose
+// exponent is known. The caller then builds on the returned values the way Go code does (append).
+func opDHMaterials(w *World, s *Step) (string, string) {
+	g, lib := ref.GroupByID(uint16(s.Group)), libDH(s.Group)
+	if g == nil || lib == nil {
+		return "nogroup", "nogroup"
+	}
+	a := new(big.Int).SetBytes(s.X)
+	kei := g.Public(a)
+	sc := RandScript{Seed: 12}
+	if s.Rand != nil {
+		sc = *s.Rand
+	}
+	res := &callResult{}
+	res.RandSt = simRand.begin(sc)
+	var pub, shared []byte
+	guard(res, func() {
+		pub, shared, res.Err = security.CalculateDiffieHellmanMaterials(&security.IKESAKey{DhInfo: lib}, clone(kei))
+	})
+	simRand.end()
+	noteRandFaults(w, s.Rand, res.RandSt)
+	abs := fmt.Sprintf("mat:g%d:%s:fired=%v", s.Group, res.class(), res.RandSt.fired)
+	if w.prop != "C09" {
+		return fmt.Sprintf("%s:%x:%x", res.class(), fnv1a(0, pub), fnv1a(0, shared)), abs
+	}
+	switch {
+	case res.Panic != "":
+		w.violate("dh_panic", panicKey(res), "CalculateDiffieHellmanMaterials panicked: %s", res.Panic)
+		return "panic", abs
+	case res.RandSt.fired:
+		if res.Err == nil || pub != nil || shared != nil {
+			w.violate("rand_failure_ignored", "CalculateDiffieHellmanMaterials", "random source failed at read %d (%s) but CalculateDiffieHellmanMaterials returned err=%v public=%d octets secret=%d octets",
+				s.Rand.FailAt, s.Rand.FailMode, res.Err, len(pub), len(shared))
+		}
+		w.ext["c09_neg"] = true
+		c09Nontriv(w)
+		return "failed", abs
+	case res.Err != nil:
+		w.violate("gen_error", "CalculateDiffieHellmanMaterials", "CalculateDiffieHellmanMaterials failed without an injected fault: %v", res.Err)
+		return "err", abs
+	}
+	if len(pub) != g.Len {
+		w.violate("public_length", fmt.Sprintf("group%d", g.ID), "local public value returned by CalculateDiffieHellmanMaterials has %d octets, modulus has %d", len(pub), g.Len)
+		return "badpub", abs
+	}
+	want := g.Shared(a, new(big.Int).SetBytes(pub)) // what the peer computes from our public value
+	c09CheckValue(w, g, shared, want, "shared", "shared secret returned by CalculateDiffieHellmanMaterials (peer computes (local public)^a)")
+	// yardstick for the public value: the exponent GenerateRandomNumber draws from the same random stream
+	clean := sc
+	clean.FailAt = 0
+	if x, xr := genNumber(&clean); xr.class() == "ok" {
+		c09CheckValue(w, g, pub, g.Public(x), "public", "public value returned by CalculateDiffieHellmanMaterials")
+	}
+	// the caller builds KE | nonce style buffers by appending to what it was given
+	pubSnap, shSnap := clone(pub), clone(shared)
+	tail := bytes.Repeat([]byte{0xa5}, 1+len(s.X)%61)
+	_ = append(pub, tail...)
+	if !bytes.Equal(shared, shSnap) {
+		w.violate("returned_values_share_memory", "CalculateDiffieHellmanMaterials", "appending %d octets to the returned public value changed the returned shared secret", len(tail))
+	}
+	_ = append(shared, tail...)
+	if !bytes.Equal(pub, pubSnap) {
+		w.violate("returned_values_share_memory", "CalculateDiffieHellmanMaterials", "appending %d octets to the returned shared secret changed the returned public value", len(tail))
+	}
+	w.stats.inc("dh_materials_checked")
+	c09Nontriv(w)
+	return "ok", abs
+}
+
+// opDHSpin: a long-lived process. The group objects are process-wide; a busy gateway performs millions of
+// operations on them. N cheap operations (tiny exponents, so a modexp costs about a microsecond), each
+// compared with a table of reference values; the steps after it see a group object with that history.
+func opDHSpin(w *World, s *Step) (string, string) {
+	g, lib := ref.GroupByID(uint16(s.Group)), libDH(s.Group)
+	if g == nil || lib == nil {
+		return "nogroup", "nogroup"
+	}
+	const tab = 8
+	var xs [tab]*big.Int
+	var pubs, shs [tab][]byte
+	y := new(big.Int).SetBytes(s.Y)
+	for i := range xs {
+		xs[i] = big.NewInt(int64(i + 1))
+		pubs[i] = g.Public(xs[i])
+		shs[i] = g.Shared(xs[i], y)
+	}
+	res := &callResult{}
+	bad := -1
+	var got []byte
+	guard(res, func() {
+		for i := 0; i < s.N; i++ {
+			k := i % tab
+			if i&1 == 0 {
+				got = lib.GetPublicValue(xs[k])
+				if !bytes.Equal(got, pubs[k]) {
+					bad = i
+					return
+				}
+			} else {
+				got = lib.GetSharedKey(xs[k], y)
+				if !bytes.Equal(got, shs[k]) {
+					bad = i
+					return
+				}
+			}
+		}
+	})
+	w.stats.add("dh_spin_operations", int64(s.N))
+	abs := fmt.Sprintf("spin:g%d:%s", s.Group, res.class())
+	if w.prop != "C09" {
+		return fmt.Sprintf("%s:%d", res.class(), bad), abs
+	}
+	if res.Panic != "" {
+		w.violate("dh_panic", panicKey(res), "DH operation panicked during a run of %d operations on one group object: %s", s.N, res.Panic)
+		return "panic", abs
+	}
+	if bad >= 0 {
+		what := "public"
+		if bad&1 == 1 {
+			what = "shared"
+		}
+		w.violate(what+"_value", fmt.Sprintf("group%d", g.ID), "operation %d of a run of %d on one group object (exponent %d): result differs from the reference modexp over the RFC prime: got %x", bad+1, s.N, bad%tab+1, trunc(got, 48))
+		return "bad", abs
+	}
+	w.ext["c09_modexp"] = true
+	w.stats.inc("probe_million_operations_on_one_group_object")
+	return "ok", abs
+}
+
 func opDHNewSAFailSweep(w *World, s *Step) (string, string) {
 	if s.Suite == nil {
 		return "nosuite", "nosuite"
@@ -624,6 +755,10 @@ func genC09(r *Rng, idx int, tier string) *Scenario {
 	gid := dhGroups[idx%2]
 	g := ref.GroupByID(uint16(gid))
 	n := r.Range(3, 10)
+	if idx%1500 == 1498 || idx%1500 == 1499 {
+		// long-lived process: more than 2^20 operations on one group object, then ordinary steps
+		sc.Steps = append(sc.Steps, Step{Op: "dh_spin", Group: gid, N: 1<<20 + 64 + r.Intn(1000), Y: genPeerBytes(r, g)})
+	}
 	for i := 0; i < n; i++ {
 		switch r.Intn(16) {
 		case 0, 1, 2:
@@ -641,7 +776,14 @@ func genC09(r *Rng, idx int, tier string) *Scenario {
 			sc.Steps = append(sc.Steps, Step{Op: "dh_shared", Group: gid, X: genExponentBytes(r, g), Y: genPeerBytes(r, g), Repeat: r.Intn(2)})
 		case 11, 12:
 			sc.Steps = append(sc.Steps, Step{Op: "dh_agree", Group: gid, Rand: genDHRand(r), Rand2: genDHRand(r), N: r.Intn(2)})
-		case 13, 14:
+		case 13:
+			st := Step{Op: "dh_materials", Group: gid, X: genExponentBytes(r, g), Rand: genDHRand(r)}
+			if r.Chance(1, 5) {
+				st.Rand.FailAt = r.Range(1, 3)
+				st.Rand.FailMode = Pick(r, "err", "eof", "partial")
+			}
+			sc.Steps = append(sc.Steps, st)
+		case 14:
 			su := suiteByIndex(r.Intn(27))
 			su.DH = gid
 			st := Step{Op: "dh_newsa", Suite: &su, X: r.Bytes(Pick(r, 32, 128, 256)), Nonce: r.Bytes(r.Range(16, 64)), Nonce2: r.Bytes(r.Range(16, 64)),
